@@ -927,6 +927,14 @@ fn gen_byte_history(r: &mut Rng, serial: bool, faults: bool) -> Vec<ByteItem> {
             }
         }
     }
+    if r.below(80) == 0 {
+        // scale: a long packet (hundreds to 4096 frames), whole or cut short, sometimes followed by a wrong frame
+        let frames = *r.pick(&[300usize, 300, 600, 600, 1200, 1200, 2049, 4096]);
+        let p = Packet { is_error: r.flip(), device_address: 7, data: gen_bytes(r.below(99), frames * 7 - r.below(7) as usize) };
+        let w = refenc::wire(&p);
+        let k = if r.flip() { w.len() } else { w.len() - r.below(3) as usize };
+        segs.extend(w.into_iter().take(k));
+    }
     for probe in 0..2u16 {
         let p = Packet { is_error: false, device_address: 7 + probe, data: gen_bytes(r.below(99), r.below(25) as usize) };
         segs.extend(refenc::wire(&p));
@@ -1447,7 +1455,14 @@ fn gen_e2e(r: &mut Rng) -> String {
         1 => a,
         _ => *r.pick(&[2u16, 0x0b0b, 0xfffe]),
     };
-    let hs: String = (0..r.below(5)).map(|_| if r.flip() { 'c' } else { 'o' }).collect();
+    // handler table built by a history: `c` / `o` register a capture-all / own-address handler, a digit removes that id
+    let hs: String = (0..r.below(7))
+        .map(|_| match r.below(5) {
+            0 => char::from(b'0' + r.below(4) as u8),
+            1 | 2 => 'c',
+            _ => 'o',
+        })
+        .collect();
     let n = r.below(6);
     let evs: Vec<String> = (0..n)
         .map(|j| {
@@ -1481,7 +1496,7 @@ fn exec_e2e(t: &[&str]) -> Option<String> {
     let link = *t.first()?;
     let a = u16::from_str_radix(t.get(1)?, 16).ok()?;
     let b = u16::from_str_radix(t.get(2)?, 16).ok()?;
-    let hs: Vec<bool> = if *t.get(3)? == "-" { vec![] } else { t[3].chars().map(|c| c == 'c').collect() };
+    let hs: Vec<char> = if *t.get(3)? == "-" { vec![] } else { t[3].chars().collect() };
     let evs: Vec<Ev> = split_list(t.get(4)?, '+').iter().map(|s| Ev::parse(s)).collect::<Option<_>>()?;
     let seed: u64 = t.get(5)?.parse().ok()?;
     let chunk: usize = if link == "serial" { t.get(6)?.parse().ok()? } else { 1 };
@@ -1498,9 +1513,16 @@ fn exec_e2e(t: &[&str]) -> Option<String> {
     macro_rules! run_node_b {
         ($iface:expr, $remaining:expr, $reset:expr) => {{
             let mut pb = Protocol::new(b, $iface);
-            for (token, cap) in hs.iter().enumerate() {
-                let l = log.clone();
-                pb.add_packet_handler(Box::new(move |p: &Packet, _pr: &mut Protocol<_>| l.borrow_mut().push(format!("h{}/{}", token, record(p)))), *cap).ok()?;
+            let mut token = 0usize;
+            for op in hs.iter() {
+                if let Some(id) = op.to_digit(10) {
+                    let _ = pb.remove_packet_handler(id);
+                } else {
+                    let l = log.clone();
+                    let tk = token;
+                    token += 1;
+                    pb.add_packet_handler(Box::new(move |p: &Packet, _pr: &mut Protocol<_>| l.borrow_mut().push(format!("h{}/{}", tk, record(p)))), *op == 'c').ok()?;
+                }
             }
             let mut ticks = 0usize;
             let mut status = "ok";
